@@ -44,6 +44,7 @@ PROP_RTOL = 1e-9
 X, Y, Z = util.paulis[1:]
 I2 = util.paulis[0]
 OPS2 = {'X': X / 2, 'Y': Y / 2, 'Z': Z / 2, 'XZ': (X + Z) / 2, 'P': (I2 + Z) / 2, 'YZ': (Y - Z) / 4}
+CONST = {'X': 1.5, 'Y': 0.75, 'Z': -2.0, 'XZ': 1.25, 'P': 0.5, 'YZ': 3.0}      # constant sensitivities (never 0 or 1)
 OMA = np.array([0.0, 0.7, -1.3])
 OMB = np.array([0.4, 2.1, -0.9])
 GRIDS = {0: OMA, 1: OMB}
@@ -108,7 +109,7 @@ def simple_spec(r, ctrl, noise, G=None, d=2):
         elif s == 'var':
             co = np.round(r.uniform(0.5, 2.0, G), 3)
         elif s == 'const':
-            co = np.full(G, 1.0)
+            co = np.full(G, CONST[k])
         else:
             co = np.full(G, float(s))
         n.append((OPS2[k], co, i))
@@ -791,6 +792,13 @@ def numeric_case(specs):
 
 def numeric_predicates(pulses, new, om):
     bad = []
+    res = run_wff(pulses)
+    if res[0] == 'ok':
+        bad += ham_predicates(pulses, res[1], res[2], res[3])
+        if not (res[1] == new):
+            bad.append(('denote', 'concatenate and concatenate_without_filter_function give different pulses'))
+    else:
+        bad.append(('raises-' + type(res[2]).__name__, 'concatenate_without_filter_function raised %r' % res[2]))
     if not new.is_cached('control_matrix_pc'):
         # disjoint sets: correlations silently missing (known finding); only the totals can be checked
         bad.append(('pc-missing', 'calc_pulse_correlation_FF=True returned without pulse correlation quantities'))
@@ -897,6 +905,33 @@ def run_numeric(ctx, out):
 
 
 # ------------------------------------------------------------------------------------------- entry points
+MODELLED = ['pulse_sequence__concatenate_Hamiltonian', 'pulse_sequence_concatenate_without_filter_function',
+            'pulse_sequence_concatenate', 'pulse_sequence_PulseSequence___matmul__', 'pulse_sequence_PulseSequence___getitem__',
+            'pulse_sequence_PulseSequence_cache_filter_function', 'pulse_sequence_PulseSequence_cache_control_matrix',
+            'pulse_sequence_PulseSequence_get_total_phases', 'pulse_sequence_PulseSequence_cache_total_phases',
+            'pulse_sequence_PulseSequence_get_pulse_correlation_filter_function',
+            'pulse_sequence_PulseSequence_get_pulse_correlation_control_matrix',
+            'numeric_calculate_control_matrix_from_atomic', 'numeric_calculate_pulse_correlation_filter_function',
+            'numeric_calculate_control_matrix_from_scratch', 'superoperator_liouville_representation', 'util_mdot',
+            'util_cexp', 'util_hash_array_along_axis', 'util_all_array_equal']
+
+
+def changed_sources():
+    """modelled functions whose regenerated hash (Extracted/Src.v) differs from the pinned one (Model/Expected.v)"""
+    import os
+    import re
+    from ..common import COQ
+
+    def hashes(path):
+        try:
+            txt = open(os.path.join(COQ, path)).read()
+        except OSError:
+            return {}
+        return dict(re.findall(r'Definition h_(\w+) : string := "([0-9a-f]+)"', txt))
+    src, exp = hashes('Extracted/Src.v'), hashes('Model/Expected.v')
+    return [f for f in MODELLED if src.get(f) != exp.get(f)]
+
+
 def run(ctx):
     out = dict(evaluations=0, failures=[], samples=[], classes={}, corr={})
     with warnings.catch_warnings():
@@ -904,6 +939,21 @@ def run(ctx):
         run_bookkeeping(ctx, out)
         run_decisions(ctx, out)
         run_numeric(ctx, out)
+    changed = changed_sources()
+    if changed:
+        # The source of a modelled function differs from the one the model was written for.  tools/check.py only
+        # reports a broken tie when the plugin has no failure at all, known findings included; C03 always has known
+        # findings, so the broken tie is reported here (with a failing input if the deeper search finds one).
+        from ..common import known_findings
+        ksig = {e['signature'] for e in known_findings(ID)}
+        if not any(f['signature'] not in ksig for f in out['failures']):
+            found = search(ctx, ['source of %s changed (Model/Tie/C03.v)' % ', '.join(changed)])
+            if found:
+                out['failures'] += found
+            else:
+                out['failures'].append(dict(kind='obligation', signature='c03-source-changed',
+                                            observable='Model/Tie/C03.v: source of %s differs from the modelled one' % ', '.join(changed),
+                                            detail='no failing input found by the search', input=None, nofail=True))
     out['distinct_nontrivial'] = len(out['classes'])
     out['rule'] = ('bookkeeping: identifier/operator patterns (named witnesses, all single-operator assignments of 3 '
                    'identifiers to 3 operators over 2 and 3 pulses (sampled in quick), random 1..4-pulse mixtures, rejections); '
